@@ -1,5 +1,5 @@
 """C03 -- Class bodies: member kinds, access levels and special members are right."""
-from harness.core import Corr, Search
+from harness.core import Corr, Search, run_driver
 from harness import impl, blocks
 from harness.props import c05
 
@@ -9,14 +9,93 @@ from cxxheaderparser import types as T
 PID = "C03"
 TITLE = "Class bodies: member kinds, access levels and special members are right"
 THEOREM_FILE = "Props/C03.v"
-MODELLED = ("the access level attached to a member is proved on the regenerated block machine (access_in_force_partial); member kinds, "
+MODELLED = ("the access level attached to a member is proved on the regenerated block machine (access_in_force_partial); base clauses over "
+            "identifier-named bases are modelled by hand (Parse/BaseClause.v, base_clause_decodes_partial) and tied differentially; member kinds, "
             "constructor/destructor/operator recognition, method qualifiers, bases and anonymous-id sharing live in the parser bulk and are "
             "decided by the AST-first class search")
 ASSUMPTIONS = []
 
 
+def real_bases(text):
+    try:
+        d = impl.parse_string(text)
+    except (impl.CxxParseError, AssertionError, RecursionError):
+        return ('err',)
+    ns = d.namespace
+    if len(ns.classes) != 1 or ns.variables or ns.functions:
+        return ('other',)
+    out = []
+    for b in ns.classes[0].class_decl.bases:
+        segs = b.typename.segments
+        if len(segs) != 1 or getattr(segs[0], "specialization", None) is not None or not hasattr(segs[0], "name"):
+            return ('other',)
+        out.append((b.access, segs[0].name, b.virtual, b.param_pack))
+    return ('ok', out)
+
+
+def corr_bases(ctx, corr):
+    """the base-clause model (Parse/BaseClause.v) vs the implementation"""
+    from harness import decl
+    from harness.props import c02
+    rng = ctx.rng
+    cases, metas = [], []
+    for _ in range(ctx.scale(800, 16000)):
+        key = rng.choice(["struct", "class", "union"])
+        default = "private" if key == "class" else "public"
+        toks, exp = [], []
+        for i in range(rng.choice([1, 1, 2, 3, 4])):
+            acc = rng.choice([None, None, "public", "private", "protected"])
+            virt = rng.random() < 0.3
+            first = rng.random() < 0.5
+            pack = rng.random() < 0.15
+            mods = ([acc] if acc else [])
+            mods = (["virtual"] + mods if first else mods + ["virtual"]) if virt else mods
+            if i:
+                toks.append(',')
+            toks += mods + ["B%d" % i] + (["..."] if pack else [])
+            exp.append((acc or default, "B%d" % i, virt, pack))
+        toks += ['{', '}', ';']
+        cases.append((key, default, toks))
+        metas.append(('bases-valid', exp))
+        if rng.random() < 0.5:
+            mt = c02.mutate(rng, toks[:-3])
+            mt = [t for t in mt if t not in ('(', ')', '[', ']', '*', '&', '&&', 'const', 'volatile', '3', 'void')] or ['B0']
+            cases.append((key, default, mt + ['{', '}', ';']))
+            metas.append(('bases-mutated', None))
+    lines, nms = [], []
+    for key, default, toks in cases:
+        names = decl.Names()
+        lines.append([85, len(toks) + 2, impl.CODE[default]] + decl.enc_tokens(toks, names))
+        nms.append(names)
+    outs = run_driver(lines)
+    for (key, default, toks), (kind, exp), o, names in zip(cases, metas, outs, nms):
+        corr.cases += 1
+        r = real_bases(key + " S : " + ' '.join(toks))
+        if o[0] == 0:
+            k = o[2]
+            m = ('ok', [(impl.TT[o[3 + 4 * i]], names.rev.get(o[4 + 4 * i], '?'), bool(o[5 + 4 * i]), bool(o[6 + 4 * i])) for i in range(k)], o[1])
+        else:
+            m = ('err', o[1])
+        corr.dist[kind + ":" + m[0] + "/" + r[0]] = corr.dist.get(kind + ":" + m[0] + "/" + r[0], 0) + 1
+        msg = None
+        if m[0] == 'ok' and m[2] == 3:
+            if r[0] != 'ok':
+                msg = "model reports the bases %s but the implementation %s" % (m[1], "rejects the input" if r[0] == 'err' else "reports something else")
+            elif r[1] != m[1]:
+                msg = "bases: model %s; implementation %s" % (m[1], r[1])
+        elif m[0] == 'err' and m[1] in (1, 2, 3) and r[0] == 'ok':
+            msg = "model rejects (code %d) but the implementation reports %s" % (m[1], r[1])
+        if msg is None and kind == 'bases-valid' and (m[0] != 'ok' or m[1] != exp):
+            msg = "model does not decode the printed base clause `%s`" % ' '.join(toks)
+        if msg:
+            corr.disagreements.append(dict(case=dict(kind='corr-bases', key=key, tokens=toks), model=str(m)[:300], impl=str(r)[:300], what=msg))
+
+
 def correspond(ctx):
-    return c05.correspond(ctx)
+    corr = c05.correspond(ctx)
+    corr_bases(ctx, corr)
+    corr.note += " | base clauses: extracted Parse/BaseClause.v vs class_decl.bases of parse_string on valid and mutated clauses (class keys struct / class / union)"
+    return corr
 
 
 QUALS = [
@@ -365,7 +444,9 @@ def replay(ctx, case):
     return [m] if m else []
 
 
-LEVEL_TEXT = ("Proved in Coq on the regenerated block machine, for every prefix of events and any nesting depth: the access delivered with a "
+LEVEL_TEXT = ("PARTIAL. Proved in Coq for base lists of any length: every base is reported once, in order, with its virtual / pack flags, and a base "
+              "without an access keyword has the class-key default whatever the bases before it said (base_clause_decodes_partial; hand model tied "
+              "differentially on valid and mutated clauses). Proved in Coq on the regenerated block machine, for every prefix of events and any nesting depth: the access delivered with a "
               "member equals the backward-scan specification - class-key default until the first specifier of the SAME class body, then the most "
               "recent one; nested classes before or around it do not matter (access_in_force_partial). Everything else the property lists "
               "(exactly-once and order of members, kinds, constructor/destructor/operator recognition, the method qualifiers, bases with "
